@@ -1,6 +1,7 @@
 import Exetera.Lemmas.ExportApi
 import Exetera.Lemmas.CsvParse
-import Exetera.Lemmas.ExportPandas
+import Exetera.Lemmas.CsvParseQuoted
+import Exetera.Lemmas.ExportPandasRows
 /-!
   C18 — CSV / pandas export writes exactly the selected rows and columns.
 
@@ -80,11 +81,97 @@ theorem terminates (c0 : List Export.Cell) (rest : List (List Export.Cell)) (flt
 example : exportLoop [[['a'], ['b'], ['c'], ['d']]] none 2 3 = .ok [[['a']], [['b']], [['c']], [['d']]] ∧
     exportLoop [[['a'], ['b'], ['c'], ['d']]] none 2 2 = .error .outOfFuel := by decide
 
-/- FULL STATEMENT (not provable: false as found, `Witness.C18.nc18a_bare_cr_splits_record`):
-     theorem std_parser_recovers … (hcrs) (hsel) (hflt) (hne) :
-       ∃ fields text, f.getAll (dropFilterColumn rf sel) = .ok fields ∧ toCsv renderRow f rf cf crs = .ok text ∧
-         parse .std text = dropFilterColumn rf sel :: exportRows (fields.map (·.data)) flt
-   i.e. without the hypothesis `hread`. What is missing: csv.writer (Python < 3.13) does not quote a bare carriage return. -/
+/-- **readers_recover** (with fixes/D30_NC18a: the lines of the file are written by ExeTera's own `_csv_record`, `csvRecord`).
+    For every frame — whatever its cells and names hold: separators, quotes, line feeds, carriage returns, leading blanks —
+    every valid selection, filter and `chunk_row_size ≥ 1`, a reader of ANY of the four dialects applied to the file recovers
+    the header and every cell of every selected row exactly. -/
+theorem readers_recover (d : Dialect) (f : Frame) (rf : RowFilter) (cf : ColFilter) (crs : Int)
+    (sel : List Export.Cell) (flt : Option (List Bool))
+    (hcrs : 0 < crs) (hsel : Selects f cf sel) (hflt : validateRowFilter rf = .ok flt)
+    (hne : dropFilterColumn rf sel ≠ []) :
+    ∃ fields text, f.getAll (dropFilterColumn rf sel) = .ok fields ∧ toCsv csvRecord f rf cf crs = .ok text ∧
+      parse d text = dropFilterColumn rf sel :: exportRows (fields.map (·.data)) flt := by
+  obtain ⟨fields, hget, _, _, hcsv⟩ := to_csv_rows csvRecord f rf cf crs sel flt hcrs hsel hflt hne
+  refine ⟨fields, _, hget, hcsv, ?_⟩
+  have := parse_records d (dropFilterColumn rf sel :: exportRows (fields.map (·.data)) flt)
+  simpa only [List.flatMap_cons] using this
+
+/-- **std_parser_recovers** (full; with fixes/D30_NC18a): "a standard CSV parser recovers each cell's value" — no hypothesis about
+    the contents of the frame. (As found — `csv.writer` of Python < 3.13 — only `std_parser_recovers_partial` below holds:
+    `Witness.C18.nc18a_bare_cr_splits_record`.) -/
+theorem std_parser_recovers (f : Frame) (rf : RowFilter) (cf : ColFilter) (crs : Int)
+    (sel : List Export.Cell) (flt : Option (List Bool))
+    (hcrs : 0 < crs) (hsel : Selects f cf sel) (hflt : validateRowFilter rf = .ok flt)
+    (hne : dropFilterColumn rf sel ≠ []) :
+    ∃ fields text, f.getAll (dropFilterColumn rf sel) = .ok fields ∧ toCsv csvRecord f rf cf crs = .ok text ∧
+      parse .std text = dropFilterColumn rf sel :: exportRows (fields.map (·.data)) flt :=
+  readers_recover .std f rf cf crs sel flt hcrs hsel hflt hne
+
+/-- **reimport_exact** (full; with fixes/D30_NC18a): "re-importing the file … reproduces the string … columns" — ExeTera's own
+    reader dialect recovers every cell exactly, leading blanks included. (As found only `reimport_exact_partial` /
+    `reimport_roundtrip` below hold: `Witness.C18.d30_leading_blank_lost`.) -/
+theorem reimport_exact (f : Frame) (rf : RowFilter) (cf : ColFilter) (crs : Int)
+    (sel : List Export.Cell) (flt : Option (List Bool))
+    (hcrs : 0 < crs) (hsel : Selects f cf sel) (hflt : validateRowFilter rf = .ok flt)
+    (hne : dropFilterColumn rf sel ≠ []) :
+    ∃ fields text, f.getAll (dropFilterColumn rf sel) = .ok fields ∧ toCsv csvRecord f rf cf crs = .ok text ∧
+      parse .exetera text = dropFilterColumn rf sel :: exportRows (fields.map (·.data)) flt :=
+  readers_recover .exetera f rf cf crs sel flt hcrs hsel hflt hne
+
+example :=
+  std_parser_recovers [⟨['s'], [['i', '\r', 'j'], [' ', 'a']]⟩, ⟨['n'], [['1'], ['2']]⟩] .none (.one ['s']) 1 [['s']] none
+    (by decide) (Selects.one _ (by decide)) rfl (by decide)
+
+example :=
+  reimport_exact [⟨['s'], [[' ', 'a'], [' ', ' '], ['\r']]⟩, ⟨['b'], [['T'], ['F'], ['T']]⟩]
+    (.field (some ['b']) true true [true, false, true]) .none 2 [['s'], ['b']] (some [true, false, true])
+    (by decide) Selects.none rfl (by decide)
+
+/-- non-vacuity: leading blanks, a cell of blanks only, bare carriage returns, a lone CR, separators and quotes -/
+example :=
+  readers_recover .exetera [⟨[' ', 's'], [[' ', 'a'], [' ', ' '], ['i', '\r', 'j'], ['\r'], ['x', ',', '"']]⟩,
+      ⟨['n'], [['1'], ['2'], ['3'], ['4'], ['5']]⟩]
+    (.array [true, true, true, true, true]) .none 2 [[' ', 's'], ['n']] (some [true, true, true, true, true]) (by decide)
+    Selects.none rfl (by decide)
+
+example : toCsv csvRecord [⟨['s'], [[' ', 'a'], ['i', '\r', 'j']]⟩, ⟨['n'], [['1'], ['2']]⟩] .none .none 1
+    = .ok ['s', ',', 'n', '\n', '"', ' ', 'a', '"', ',', '1', '\n', '"', 'i', '\r', 'j', '"', ',', '2', '\n'] := by decide
+
+/-- **csv_record_agrees_with_csv_writer**: the fix changes no other byte — on every frame none of whose selected cells or names
+    starts with a blank or holds a carriage return, `to_csv` writes the same file with `_csv_record` as with `csv.writer`. -/
+theorem csv_record_agrees_with_csv_writer (f : Frame) (rf : RowFilter) (cf : ColFilter) (crs : Int)
+    (sel : List Export.Cell) (flt : Option (List Bool))
+    (hcrs : 0 < crs) (hsel : Selects f cf sel) (hflt : validateRowFilter rf = .ok flt)
+    (hne : dropFilterColumn rf sel ≠ [])
+    (hplain : ∀ c ∈ f, (c.name.head? ≠ some ' ' ∧ '\r' ∉ c.name) ∧ ∀ x ∈ c.data, x.head? ≠ some ' ' ∧ '\r' ∉ x) :
+    toCsv csvRecord f rf cf crs = toCsv renderRow f rf cf crs := by
+  obtain ⟨fields, hget, hnames, hmem, hcsv⟩ := to_csv_rows csvRecord f rf cf crs sel flt hcrs hsel hflt hne
+  obtain ⟨fields', hget', _, _, hcsv'⟩ := to_csv_rows renderRow f rf cf crs sel flt hcrs hsel hflt hne
+  have hf : fields' = fields := by rw [hget] at hget'; exact (Except.ok.inj hget').symm
+  subst hf
+  rw [hcsv, hcsv']
+  have hhead : csvRecord (dropFilterColumn rf sel) = renderRow (dropFilterColumn rf sel) := by
+    apply csvRecord_eq_renderRow
+    intro c hc
+    rw [← hnames] at hc
+    obtain ⟨col, hcol, rfl⟩ := List.mem_map.mp hc
+    exact (hplain col (hmem col hcol)).1
+  have hrows : ∀ r ∈ exportRows (fields'.map (·.data)) flt, csvRecord r = renderRow r := by
+    intro r hr
+    apply csvRecord_eq_renderRow
+    intro c hc
+    obtain ⟨col, hcol, hx⟩ := mem_exportRows hr hc
+    obtain ⟨fc, hfc, rfl⟩ := List.mem_map.mp hcol
+    exact (hplain fc (hmem fc hfc)).2 c hx
+  rw [hhead, flatMap_congr_mem _ _ _ hrows]
+
+example :=
+  csv_record_agrees_with_csv_writer [⟨['s'], [['a', ' '], ['p', ',', '"'], ['l', '\n', 'm'], []]⟩, ⟨['n'], [['1'], ['2'], ['3'], ['4']]⟩]
+    (.array [true, false, true, true]) (.many [['n'], ['s']]) 3 [['n'], ['s']] (some [true, false, true, true])
+    (by decide) (Selects.many _ (by decide) (by decide)) rfl (by decide) (by decide)
+
+/- As found (the lines written by `csv.writer`, `renderRow`) the full statement `std_parser_recovers` is false
+   (`Witness.C18.nc18a_bare_cr_splits_record`: csv.writer of Python < 3.13 does not quote a bare carriage return); what holds: -/
 /-- **std_parser_recovers_partial**: with the specified `csv.writer` (`renderRow`), a standard CSV reader applied to the file written
     by `to_csv` recovers the header and every cell of every selected row exactly — provided no cell or name of the frame holds a
     carriage return without also holding a comma, quote or line feed (finding NC18a: such a cell is written unquoted). -/
@@ -158,11 +245,9 @@ theorem asRead_exetera_of_keepsBlanks (c : Export.Cell) (h : KeepsBlanks c) : as
       · simp [List.dropWhile, hx]
       · rfl
 
-/- FULL STATEMENT (not provable: false as found, `Witness.C18.d30_leading_blank_lost`):
-     theorem reimport_exact … (hcrs) (hsel) (hflt) (hne) :
-       ∃ fields text, … ∧ parse .exetera text = dropFilterColumn rf sel :: exportRows (fields.map (·.data)) flt
-   i.e. without the hypothesis `hkeep`. What is missing: the writer leaves a cell with leading blanks unquoted and the reader
-   skips blanks at the start of a field (D30); `reimport_roundtrip` above states exactly what is read instead. -/
+/- As found (`renderRow`) the full statement `reimport_exact` above is false (`Witness.C18.d30_leading_blank_lost`: csv.writer leaves a
+   cell with leading blanks unquoted and the reader skips blanks at the start of a field); `reimport_roundtrip` above states
+   exactly what is read instead, and: -/
 /-- **reimport_exact_partial**: if every cell and name of the frame keeps its blanks (no leading blank, or quoted anyway), re-import
     through ExeTera's reader dialect reproduces the header and every selected row exactly. -/
 theorem reimport_exact_partial (f : Frame) (rf : RowFilter) (cf : ColFilter) (crs : Int)
@@ -208,26 +293,18 @@ example :=
 example : parse .exetera (render [[['s'], ['n']], [[' ', 'x'], ['1']], [[' ', 'y', ','], ['2']], [['a', '\r', 'b'], ['3']]])
     = [[['s'], ['n']], [['x'], ['1']], [[' ', 'y', ','], ['2']], [['a', '\r', 'b'], ['3']]] := by decide
 
-/- FULL STATEMENT (not provable: false as found, `Witness.C18.nc18b_to_pandas_refuses_csv_filters`):
-     "to_pandas returns columns equal to the field data under the same filters [as to_csv]", i.e. the conclusion below with
-     `flt` the content of *any* filter `to_csv` accepts (a boolean Field, an array shorter or longer than the frame, missing
-     entries meaning False) instead of `hflt : PdFilterOk N rf flt`. What is missing: numpy refuses a Field as an index and a
-     boolean index of another length (NC18b). -/
-/-- **to_pandas_eq_partial**: for a valid, non-empty column selection whose columns all have `N` rows and a row filter that is absent or a
-    boolean list / array of length `N`, `to_pandas` ends normally; its columns are the distinct selected names in order of first
-    occurrence, and each column is `[x_i | i < N, filter i]` of the frame's column of that name.
-    (A Field as filter, or a filter of another length, is refused by numpy: finding NC18b, `Witness.C18`.) -/
-theorem to_pandas_eq_partial (f : Frame) (rf : PdFilter) (cf : ColFilter) (sel : List Export.Cell) (flt : Option (List Bool)) (N : Nat)
+/-- the part of `to_pandas` both variants share: the columns pass the length check and every column is mapped by `app` -/
+theorem to_pandas_core (f : Frame) (cf : ColFilter) (sel : List Export.Cell) (flt : Option (List Bool)) (N : Nat)
+    (app : List Export.Cell → Except Err (List Export.Cell))
     (hsel : Selects f cf sel) (hne : sel ≠ []) (hlen : ∀ c ∈ f, c.name ∈ sel → c.data.length = N)
-    (hflt : PdFilterOk N rf flt) :
-    ∃ cols, toPandas f rf cf = .ok cols ∧ cols.map (·.1) = firstOccurrences [] sel ∧
-      ∀ p ∈ cols, ∃ c ∈ f, c.name = p.1 ∧ p.2 = filterCol c.data flt := by
+    (happ : ∀ data : List Export.Cell, data.length = N → app data = .ok (filterCol data flt)) :
+    pdChecks f cf = .ok () ∧
+    ∃ cols, pdLoop f app cf = .ok cols ∧ cols.map (·.1) = firstOccurrences [] sel ∧ ∀ p ∈ cols, GoodCol f flt p := by
   have hall : AllLen f N sel := by
     intro n hn
     obtain ⟨c, h1, h2, h3⟩ := get?_of_mem_keys f n (hsel.subset n hn)
     exact ⟨c, h1, h3, h2, hlen c h3 (by rw [h2]; exact hn)⟩
-  obtain ⟨out, h1, h2, h3⟩ := pdCollect_ok f rf flt N hflt sel [] hall (by simp)
-  refine ⟨out, ?_, by simpa using h2, h3⟩
+  obtain ⟨out, h1, h2, h3⟩ := pdCollect_ok f app flt N happ sel [] hall (by simp)
   have hcheck : pdCheck f sel = .ok () := by
     cases hs : sel with
     | nil => exact absurd hs hne
@@ -236,16 +313,116 @@ theorem to_pandas_eq_partial (f : Frame) (rf : PdFilter) (cf : ColFilter) (sel :
       simp only [pdCheck, List.getElem?_cons_zero, Frame.getE, hc0, hl0]
       exact pdCheckLengths_ok f N _ (hs ▸ hall)
   cases hsel with
-  | none => simp only [toPandas, hcheck, h1]
-  | one n hn => simp only [toPandas, h1]
-  | many _ _ => simp only [toPandas, hcheck, h1]
+  | none => exact ⟨by simp only [pdChecks, hcheck], out, by simp only [pdLoop, h1], by simpa using h2, h3⟩
+  | one n hn => exact ⟨rfl, out, by simp only [pdLoop, h1], by simpa using h2, h3⟩
+  | many _ _ => exact ⟨by simp only [pdChecks, hcheck], out, by simp only [pdLoop, h1], by simpa using h2, h3⟩
+
+/-- **to_pandas_eq** ("to_pandas returns columns equal to the field data under the same filters"; with the fix NC18b).
+    For every frame, every valid non-empty column selection whose columns all have `N` rows, and EVERY row filter the validator
+    of `to_csv` accepts (`hflt` is the very hypothesis of `to_csv_rows`: a boolean Field, a boolean or integer array — of any
+    length — or, for `to_pandas`, a Python list): `to_pandas` ends normally; its columns are the distinct selected names in
+    order of first occurrence; each is `[x_i | i < N, keep flt i]` of the frame's column of that name, where `keep flt` is the
+    row selection of `exportRows`, the rows `to_csv` writes (`to_csv_rows`). -/
+theorem to_pandas_eq (f : Frame) (pf : PdFilter) (cf : ColFilter) (sel : List Export.Cell) (flt : Option (List Bool)) (N : Nat)
+    (hsel : Selects f cf sel) (hne : sel ≠ []) (hlen : ∀ c ∈ f, c.name ∈ sel → c.data.length = N)
+    (hflt : validateRowFilter pf.toRowFilter = .ok flt) :
+    ∃ cols, toPandas .repaired f pf cf = .ok cols ∧ cols.map (·.1) = firstOccurrences [] sel ∧
+      ∀ p ∈ cols, ∃ c, f.get? p.1 = some c ∧ c ∈ f ∧ c.name = p.1 ∧ p.2 = filterCol c.data flt := by
+  obtain ⟨hchk, cols, hloop, hnames, hgood⟩ := to_pandas_core f cf sel flt N (fun data => .ok (pdApply flt data)) hsel hne hlen
+    (fun data _ => by rw [pdApply_eq_filterCol])
+  exact ⟨cols, by simp only [toPandas, hchk, hflt, hloop], hnames, hgood⟩
+
+/-- non-vacuity: a Field shorter than the frame, an integer array longer than the frame, a list, a duplicated selection -/
+example :=
+  to_pandas_eq [⟨['s'], [['a'], ['b'], ['c']]⟩, ⟨['n'], [['1'], ['2'], ['3']]⟩] (.field true [false, true])
+    (.many [['n'], ['s'], ['n']]) [['n'], ['s'], ['n']] (some [false, true]) 3
+    (Selects.many _ (by decide) (by decide)) (by decide) (by decide) rfl
 
 example :=
-  to_pandas_eq_partial [⟨['s'], [['a'], ['b'], ['c']]⟩, ⟨['n'], [['1'], ['2'], ['3']]⟩] (.list [true, false, true])
+  to_pandas_eq [⟨['s'], [['a'], ['b'], ['c']]⟩, ⟨['n'], [['1'], ['2'], ['3']]⟩] (.intArray [1, 0, 2, 1, 1])
+    .none [['s'], ['n']] (some [true, false, false, true, true]) 3 Selects.none (by decide) (by decide) rfl
+
+example : toPandas .repaired [⟨['s'], [['a'], ['b'], ['c']]⟩, ⟨['n'], [['1'], ['2'], ['3']]⟩] (.field true [false, true])
+    (.many [['n'], ['s'], ['n']]) = .ok [(['n'], [['2']]), (['s'], [['b']])] := by decide
+
+example : toPandas .repaired [⟨['s'], [['a'], ['b'], ['c']]⟩] (.intArray [1, 0, 2, 1, 1]) .none = .ok [(['s'], [['a']])] ∧
+    toPandas .repaired [⟨['s'], [['a'], ['b'], ['c']]⟩] (.field false [true]) .none
+      = .error (.valueError "'row_filter' must be boolean field") := by decide
+
+/-- **to_pandas_agrees_with_to_csv**: `to_pandas` and `to_csv` called with the SAME `row_filter` object and the same list of
+    distinct column names (not containing the filter's own column, which only `to_csv` drops) select the same rows: writing the
+    rows of the returned pandas frame — all of them, `exportRows … none` — under the header gives exactly the file `to_csv`
+    writes, for every `writerow` and every `chunk_row_size ≥ 1`. -/
+theorem to_pandas_agrees_with_to_csv (writerow : List Export.Cell → List Char) (f : Frame) (rf : RowFilter)
+    (names : List Export.Cell) (crs : Int) (flt : Option (List Bool)) (N : Nat)
+    (hcrs : 0 < crs) (hne : names ≠ []) (hnd : names.Nodup) (hsub : ∀ n ∈ names, n ∈ f.keys)
+    (hlen : ∀ c ∈ f, c.name ∈ names → c.data.length = N)
+    (hflt : validateRowFilter rf = .ok flt) (hown : dropFilterColumn rf names = names) :
+    ∃ cols, toPandas .repaired f (.ofCsv rf) (.many names) = .ok cols ∧ cols.map (·.1) = names ∧
+      toCsv writerow f rf (.many names) crs =
+        .ok (writerow names ++ (exportRows (cols.map (·.2)) Option.none).flatMap writerow) := by
+  have hsel : Selects f (.many names) names := Selects.many _ hne hsub
+  obtain ⟨cols, hpd, hnames, hgood⟩ := to_pandas_eq f (.ofCsv rf) (.many names) names flt N hsel hne hlen
+    (by rw [validate_ofCsv]; exact hflt)
+  rw [firstOccurrences_nodup names [] hnd (by simp), List.nil_append] at hnames
+  obtain ⟨fields, hget, hfn, hmem, hcsv⟩ := to_csv_rows writerow f rf (.many names) crs names flt hcrs hsel hflt
+    (by rw [hown]; exact hne)
+  rw [hown] at hget hfn hcsv
+  refine ⟨cols, hpd, hnames, ?_⟩
+  rw [hcsv, goodCols_eq f flt names cols fields hnames (getAll_get? f names fields hget) hgood]
+  have hmap : fields.map (fun c => filterCol c.data flt) = (fields.map (·.data)).map (fun c => filterCol c flt) := by
+    simp [List.map_map]
+  rw [hmap, exportRows_filterCol (fields.map (·.data)) flt N]
+  · intro h
+    have : fields = [] := by simpa using h
+    rw [this] at hfn
+    exact hne hfn.symm
+  · intro d hd
+    obtain ⟨c, hc, rfl⟩ := List.mem_map.mp hd
+    refine hlen c (hmem c hc) ?_
+    rw [← hfn]
+    exact List.mem_map.mpr ⟨c, hc, rfl⟩
+
+/-- non-vacuity: a memory Field one entry short, an unordered selection, chunk size 2 -/
+example :=
+  to_pandas_agrees_with_to_csv renderRow [⟨['s'], [['a'], ['b', ','], ['c']]⟩, ⟨['n'], [['1'], ['2'], ['3']]⟩]
+    (.field Option.none false true [false, true]) [['n'], ['s']] 2 (some [false, true]) 3
+    (by decide) (by decide) (by decide) (by decide) (by decide) rfl rfl
+
+example : toCsv renderRow [⟨['s'], [['a'], ['b', ','], ['c']]⟩, ⟨['n'], [['1'], ['2'], ['3']]⟩]
+    (.field Option.none false true [false, true]) (.many [['n'], ['s']]) 2
+      = .ok ['n', ',', 's', '\n', '2', ',', '"', 'b', ',', '"', '\n'] ∧
+    toPandas .repaired [⟨['s'], [['a'], ['b', ','], ['c']]⟩, ⟨['n'], [['1'], ['2'], ['3']]⟩]
+      (.ofCsv (.field Option.none false true [false, true])) (.many [['n'], ['s']])
+      = .ok [(['n'], [['2']]), (['s'], [['b', ',']])] := by decide
+
+/- The statement below was all that held before the fix NC18b (`Witness.C18.nc18b_to_pandas_refuses_csv_filters` is the as-found
+   counterexample to the full one); it is kept, and now holds for BOTH variants of the model. The full statement is `to_pandas_eq`. -/
+/-- **to_pandas_eq_partial**: for a valid, non-empty column selection whose columns all have `N` rows and a row filter that is absent or a
+    boolean list / array of length `N`, `to_pandas` — as found or repaired — ends normally; its columns are the distinct selected
+    names in order of first occurrence, and each column is `[x_i | i < N, filter i]` of the frame's column of that name. -/
+theorem to_pandas_eq_partial (v : Variant) (f : Frame) (rf : PdFilter) (cf : ColFilter) (sel : List Export.Cell)
+    (flt : Option (List Bool)) (N : Nat)
+    (hsel : Selects f cf sel) (hne : sel ≠ []) (hlen : ∀ c ∈ f, c.name ∈ sel → c.data.length = N)
+    (hflt : PdFilterOk N rf flt) :
+    ∃ cols, toPandas v f rf cf = .ok cols ∧ cols.map (·.1) = firstOccurrences [] sel ∧
+      ∀ p ∈ cols, ∃ c ∈ f, c.name = p.1 ∧ p.2 = filterCol c.data flt := by
+  cases v with
+  | repaired =>
+    obtain ⟨cols, h1, h2, h3⟩ := to_pandas_eq f rf cf sel flt N hsel hne hlen (validate_of_pdFilterOk hflt)
+    exact ⟨cols, h1, h2, fun p hp => by obtain ⟨c, _, hc, hn, he⟩ := h3 p hp; exact ⟨c, hc, hn, he⟩⟩
+  | asFound =>
+    obtain ⟨hchk, cols, hloop, hnames, hgood⟩ := to_pandas_core f cf sel flt N (pdApplyAsFound rf) hsel hne hlen
+      (fun data hd => pdApplyAsFound_ok data rf flt (by rw [hd]; exact hflt))
+    exact ⟨cols, by simp only [toPandas, hchk, hloop], hnames,
+      fun p hp => by obtain ⟨c, _, hc, hn, he⟩ := hgood p hp; exact ⟨c, hc, hn, he⟩⟩
+
+example :=
+  to_pandas_eq_partial .asFound [⟨['s'], [['a'], ['b'], ['c']]⟩, ⟨['n'], [['1'], ['2'], ['3']]⟩] (.list [true, false, true])
     (.many [['n'], ['s'], ['n']]) [['n'], ['s'], ['n']] (some [true, false, true]) 3
     (Selects.many _ (by decide) (by decide)) (by decide) (by decide) (PdFilterOk.list _ rfl)
 
-example : toPandas [⟨['s'], [['a'], ['b'], ['c']]⟩, ⟨['n'], [['1'], ['2'], ['3']]⟩] (.list [true, false, true])
+example : toPandas .asFound [⟨['s'], [['a'], ['b'], ['c']]⟩, ⟨['n'], [['1'], ['2'], ['3']]⟩] (.list [true, false, true])
     (.many [['n'], ['s'], ['n']]) = .ok [(['n'], [['1'], ['3']]), (['s'], [['a'], ['c']])] := by decide
 
 end Exetera.Props.C18
